@@ -349,9 +349,10 @@ int mod_deregister(m_mod_t **mod, bool from_user) {
             
             /*
              * Destroy context if it is not looping and
-             * it has no more modules in it and is not a persistent ctx
+             * it has no more modules in it and is not a persistent ctx;
+             * not when the module is just being replaced: the new one is about to be registered in it.
              */
-            if (c->state == M_CTX_IDLE && m_map_len(c->modules) == 0 && !(c->flags & M_CTX_PERSIST)) {
+            if (from_user && c->state == M_CTX_IDLE && m_map_len(c->modules) == 0 && !(c->flags & M_CTX_PERSIST)) {
                 ret = m_ctx_deregister();
             }
         }
